@@ -167,7 +167,8 @@ def nodepath_cases(run, n):
     rng = run.rng
     cases = []
     for _ in range(n):
-        k = rng.randint(1, 9)
+        deep = rng.random() < 0.15          # a path of ten or more steps (two-digit step numbers)
+        k = rng.randint(11, 16) if deep else rng.randint(1, 9)
         ids = rng.sample(range(1, 80), k)
         pool = [gen.WORDS, gen.WORDS, gen.NONASCII, ["/", " ", "a/b", ":"]]
         names = {}
@@ -185,7 +186,7 @@ def nodepath_cases(run, n):
                 names[i] = names[rng.choice(ids[1:ids.index(i)])]
         reftypes = ["HasComponent", "Organizes", "HasProperty"]
         tsel = rng.sample(reftypes[:2], rng.randint(1, 2))
-        tree = [[ids[rng.randrange(i)], ids[i], rng.choice(tsel)] for i in range(1, k)]
+        tree = [[ids[i - 1] if deep and rng.random() < 0.9 else ids[rng.randrange(i)], ids[i], rng.choice(tsel)] for i in range(1, k)]
         # references of a type that is not selected must not matter
         other = [[rng.choice(ids), rng.choice(ids), "HasProperty"] for _ in range(rng.randint(0, 3))]
         # objects that are not below the root but point INTO the tree with a selected reference type (listed first):
